@@ -118,5 +118,5 @@ L:
 		}
 	}
 
-	return &Conn{conn, CMSTargetCall}, nil
+	return &Conn{bufferedConn{conn, reader}, CMSTargetCall}, nil
 }
